@@ -129,6 +129,8 @@ def encoded_case(res, seed, index, tier, rng):
         res.violation(f"C04:foreign-file-unloadable:{workload.exc_key(e)}", f"reference-encoded {kind} does not load: {e!r} (choices {ch.describe()})", desc)
         return
     res.count("encoded_files_loaded")
+    if res.evaluations % 53 == 1:
+        res.sample({"family": "reference-encoded", "kind": kind, "bytes": len(raw), "choices": ch.describe()})
     S = build.norm(_snap(o), "after")
     E = expected_after_choices(N, ch)
     if ch.legacy_header and kind == "project":
@@ -234,6 +236,9 @@ def edits_unknown(res, origin, raw, base_snap, desc, rng, tier):
                 new.insert(pos, (cid, pl))
                 data = rebuild(top, path, new)
                 res.count("unknown_chunk_insertions")
+                if res.counters["unknown_chunk_insertions"] % 1777 == 1:
+                    res.sample({"family": "unknown chunk", "file": origin, "chunk": cid.decode(), "boundary": pos, "nesting": list(path),
+                                "before_chunk": chunks[pos][0].decode("latin1") if pos < len(chunks) else "EOF"})
                 if path:
                     res.count("nested_boundaries")
                 res.evaluations += 1
@@ -422,8 +427,7 @@ def run_shard(spec_, res):
     for name, msg in monitors.take_failures():
         res.violation(f"C04:ambient:{name}", msg, {"monitor": name})
     if spec_["shard"] == 0:
-        res.sample({"family": "unknown chunk", "file": "fixture:metamodule.sunsynth", "chunk": "ZZZZ", "position": "every boundary, also inside the embedded project"})
-        res.sample({"family": "reference encoder", "choices": refcodec.Choices(random.Random(1)).describe()})
+        pass
     res.exhaustive = tier == "thorough"
 
 
